@@ -202,7 +202,7 @@ class CSVWriter(rbql_engine.RBQLOutputWriter):
     def set_header(self, header):
         if header is not None:
             self.header_len = len(header)
-            self.write(header)
+            self.write(list(header)) # write() normalizes its argument in place, the caller's header list must stay intact
 
 
     def monocolumn_join(self, fields):
